@@ -216,7 +216,7 @@ def run(case):
                 nw[srcs[0]] = None
                 inputs.append(("node,source_without_value", dict(twin, node_w=nw), dict(base_kw, flow_attr_origin="node")))
             inner_ = sweep.inner_nodes(inst)
-            if inner_:
+            if inner_ and not cyc:
                 extra_arcs = [list(a) for a in inst["arcs"]] + [["zz", inner_[0], None]]
                 bumped = [[a[0], a[1], a[2]] for a in extra_arcs]
                 # the route zz -> inner -> ... -> sink carries weight 2: add it along a shortest way to a sink
@@ -326,6 +326,7 @@ def run(case):
             continue
         ref = _objective(cls, ref_obs, rkey)
         for aname, fl in [assignments[0]] + assignments[2:] + extra:
+            runner.kick()
             kw = dict(kw0, optimization_options=dict(fl))
             obs = drivers.observe(dict(ii, cls=cls, kw=kw))
             tags["runs"] += 1
